@@ -477,7 +477,7 @@ var clauseKeywords = map[string]bool{
 	"assert": true, "unroll": true, "trigger": true, "establishes": true, "split": true, "implements": true, "defines": true, "panicensures": true, "generalizing": true, "hint": true, "measure": true,
 }
 
-var topKeywords = map[string]bool{"macro": true, "func": true, "trusted": true, "spec": true, "axiom": true, "lemma": true, "ghostfield": true, "sentinel": true, "immutable": true, "consttable": true, "globalinv": true, "onlycalledfrom": true, "constfield": true, "typeinv": true, "storedonlyin": true, "fieldis": true, "overridesall": true}
+var topKeywords = map[string]bool{"macro": true, "func": true, "trusted": true, "spec": true, "axiom": true, "lemma": true, "ghostfield": true, "sentinel": true, "immutable": true, "consttable": true, "globalinv": true, "onlycalledfrom": true, "constfield": true, "typeinv": true, "storedonlyin": true, "fieldis": true, "overridesall": true, "deterministic": true}
 
 // ParseFile reads all //@ lines of a file.
 func ParseFile(path string) (*File, error) {
@@ -610,6 +610,14 @@ func Parse(path, src string) (*File, error) {
 			for _, s := range strings.Split(rest, ",") {
 				f.Immutable = append(f.Immutable, strings.TrimSpace(s))
 			}
+			cur = nil
+		case "deterministic":
+			// deterministic <package name> by <function>
+			parts := strings.Fields(rest)
+			if len(parts) != 3 || parts[1] != "by" {
+				return nil, fail(l, fmt.Errorf("deterministic <package name> by <function>"))
+			}
+			f.Deterministic = append(f.Deterministic, [2]string{parts[0], parts[2]})
 			cur = nil
 		case "overridesall":
 			// overridesall <Type> <embedded field> by <function>
